@@ -91,7 +91,15 @@ func runC15(cfg Config, r *Result) {
 			if len(hs) > 0 && cfg.Rng.Intn(3) > 0 {
 				name = hs[cfg.Rng.Intn(len(hs))]
 			}
-			evs = append(evs, SemEvent{Name: name, Params: eventPayloads[name](cfg.Rng)})
+			if len(evs) > 0 && cfg.Rng.Intn(4) == 0 {
+				// the same event again, payload bit for bit (a pointer that rests, a key held down): every delivered event
+				// runs its handler exactly once
+				prev := evs[len(evs)-1-cfg.Rng.Intn(min(len(evs), 3))]
+				name = prev.Name
+				evs = append(evs, SemEvent{Name: prev.Name, Params: append([]any(nil), prev.Params...)})
+			} else {
+				evs = append(evs, SemEvent{Name: name, Params: eventPayloads[name](cfg.Rng)})
+			}
 			for _, h := range hs {
 				if h == name {
 					delivered++
@@ -218,7 +226,11 @@ func c15HiddenNames(cfg Config, r *Result, model *Model) {
 		names := []string{"down", "up", "key", "animate", "input"}
 		for j := 0; j < 4+cfg.Rng.Intn(8); j++ {
 			name := names[cfg.Rng.Intn(len(names))]
-			evs = append(evs, SemEvent{Name: name, Params: eventPayloads[name](cfg.Rng)})
+			ev := SemEvent{Name: name, Params: eventPayloads[name](cfg.Rng)}
+			evs = append(evs, ev)
+			if cfg.Rng.Intn(3) == 0 {
+				evs = append(evs, SemEvent{Name: name, Params: append([]any(nil), ev.Params...)})
+			}
 		}
 		d := semCase(model, r, src, SemOpts{StopAt: -1, Events: evs, YieldBudget: 50000}, true, "hidden:")
 		if d.Impl.ParseErr != "" || len(d.Impl.Phases) == 0 {
